@@ -94,6 +94,7 @@ func (m *machine) newInterp(s *Solver, cfg *runConfig, prefix []dec) *interprete
 		conds: map[*value]*condState{}, onces: map[*value]*onceState{},
 		initDone: map[*ssa.Package]bool{}, encoded: map[string]bool{}, stubsUsed: map[string]bool{},
 		knownOn: cfg.known, params: cfg.params, tracing: cfg.trace,
+		atlases: map[*value]*atlasRec{}, cborTypes: map[string]*atlasRec{}, handles: map[*value]iface{},
 	}
 }
 
